@@ -352,7 +352,7 @@ def run(tier, seed, replay=None):
                 "upper-case letters, one shorter, when the grammar has case-insensitive literals); VM vs Spec on the unroll/restore "
                 "streams. Concatenate shapes mix case-sensitive and case-insensitive literals; factor shapes include alternatives whose heads (or tails) "
                 "match prefixes of each other before a shared tail (after a shared head). Built-ins (NEWLINE, the ASCII_* classes, ANY / SOI / EOI, the stack "
-                "built-ins) stand in the positions a pass inspects or resolves: in skip-until stop sets directly, inside a choice and behind a helper rule of any "
+                "built-ins) stand, in about a third of the rule sets of the rewriting kinds (half of the skip shapes), in the positions a pass inspects or resolves: in skip-until stop sets directly, inside a choice and behind a helper rule of any "
                 "type (`r2 = NEWLINE`, `r2 = \"x\" | NEWLINE`), as operands of rotated sequences / choices, between concatenated literals, as shared heads of "
                 "factored choices, as element / separator of the lister shape, under bounded repetitions; a rule set that names built-ins is also run on all "
                 "short strings (budget 450 per rule set) over two letters and \\n, \\r, \\r\\n resp. the first / last member of each named ASCII class and the "
